@@ -1381,13 +1381,14 @@ Definition dec_farm (x : sx) : option (pat * ex) :=
 
 Definition dec_stmt (x : sx) : option stmt :=
   match x with
-  | Lx (Ax t :: Qx n :: Lx (Ax _ :: a) :: k :: arms) =>
+  | Lx (Ax t :: Qx n :: ((Lx (Ax _ :: a) :: k :: arms) as vs)) =>
       if String.eqb t "fun" then
         match map_opt dec_field a, dec_kind k, map_opt dec_farm arms with
         | Some a, Some (Some k), Some arms =>
             Some (SFun n a k (map (fun a => (fst a, fst (snd a), snd (snd a))) (set_last arms)))
         | _, _, _ => None
         end
+      else if String.eqb t "enum" then option_map (SEnum n) (map_opt dec_variant vs)
       else None
   | Lx [Ax t; m; Qx n; k; e] =>
       if String.eqb t "def" then
